@@ -83,6 +83,7 @@ package updog
 //@     invariant newcost(bm) <= c.maxSize ==> (key in c.entries)
 //@     invariant forall k uint64 :: (k in c.entries) && k != key ==> (k in old(c.entries)) && c.entries[k] == old(c.entries[k])
 //@                 && c.lruList.stamp[c.entries[k]] == old(c.lruList.stamp[c.entries[k]])
+//@     invariant forall k uint64 :: (k in c.entries) && k != key ==> item(c.entries[k]).bm == old(item(c.entries[k]).bm)
 //@     invariant (forall k uint64 :: (k in old(c.entries)) ==> (k in c.entries)) || old(c.curSize - oldcost(c, key)) + newcost(bm) > c.maxSize
 //@     invariant forall k2 uint64, k3 uint64 :: (k2 in old(c.entries)) && !(k2 in c.entries) && k2 != key && (k3 in c.entries) && k3 != key
 //@                 ==> old(c.lruList.stamp[c.entries[k2]]) < old(c.lruList.stamp[c.entries[k3]])
@@ -95,6 +96,28 @@ package updog
 //@              && 0 <= costmap()[$r] && costmap()[$r] <= c.curSize
 
 // ---------------------------------------------------------------------------------------------------------------
+// Semantics of expressions (C01) and of cache keys (C03)
+
+//@ pure sem(x Expression, idx *Index) iset reads ExprEqual.Column, ExprEqual.Value, ExprNot.Expr, ExprAnd.Exprs, ExprOr.Exprs, []Expression, Index.values, Index.nextRowID, preloadedColGetter.values, map[uint64]*roaring.Bitmap, dom[uint64]*roaring.Bitmap, roaring.Bitmap.view, onDemandColGetter.db, bbolt.DB.committed
+//@ pure semOfKey(k uint64, idx *Index) iset reads ExprEqual.Column, ExprEqual.Value, ExprNot.Expr, ExprAnd.Exprs, ExprOr.Exprs, []Expression, Index.values, Index.nextRowID, preloadedColGetter.values, map[uint64]*roaring.Bitmap, dom[uint64]*roaring.Bitmap, roaring.Bitmap.view, onDemandColGetter.db, bbolt.DB.committed
+//@ pure keySpec(x Expression) uint64 reads ExprEqual.Column, ExprEqual.Value, ExprNot.Expr, ExprAnd.Exprs, ExprOr.Exprs, []Expression
+//@ axiom sem_eq: forall x Expression, idx *Index :: { sem(x, idx) } typeof(x) == ptrtag(ExprEqual) ==>
+//@    sem(x, idx) == gcol(idx.values, idxOf(x.(*ExprEqual).Column, x.(*ExprEqual).Value))
+//@ axiom sem_not: forall x Expression, idx *Index :: { sem(x, idx) } typeof(x) == ptrtag(ExprNot) ==>
+//@    sem(x, idx) == diff(univ(idx.nextRowID), sem(x.(*ExprNot).Expr, idx))
+//@ axiom sem_and: forall x Expression, idx *Index, v int :: { v in sem(x, idx) } typeof(x) == ptrtag(ExprAnd) ==>
+//@    ((v in sem(x, idx)) <==> (len(x.(*ExprAnd).Exprs) >= 1 && (forall j idx(x.(*ExprAnd).Exprs) :: (v in sem(x.(*ExprAnd).Exprs[j], idx)))))
+//@ axiom sem_or: forall x Expression, idx *Index, v int :: { v in sem(x, idx) } typeof(x) == ptrtag(ExprOr) ==>
+//@    ((v in sem(x, idx)) <==> (exists j idx(x.(*ExprOr).Exprs) :: (v in sem(x.(*ExprOr).Exprs[j], idx))))
+// cache keys identify the meaning of an expression: this is the statement that keys are structural and that the hash
+// function has no collisions (the property's own proviso); it is an assumption of C03
+//@ axiom key_determines_meaning: forall x Expression, idx *Index :: { semOfKey(keySpec(x), idx) } wf(x) ==> semOfKey(keySpec(x), idx) == sem(x, idx)
+
+//@ pure cachedBM(c Cache, k uint64) *roaring.Bitmap := (typeof(c) == ptrtag(LRUCache)) ? ((k in c.(*LRUCache).entries) ? item(c.(*LRUCache).entries[k]).bm : nil) : nil
+//@ pred CacheSem(idx *Index) := forall k uint64 :: cachedBM(idx.cache, k) != nil ==>
+//@      cachedBM(idx.cache, k).view == semOfKey(k, idx) && subset(cachedBM(idx.cache, k).view, univ(idx.nextRowID))
+
+// ---------------------------------------------------------------------------------------------------------------
 // Cache interface (C03/C04): closed world of cache implementations — nullCache and LRUCache.
 
 //@ pred CacheValid(c Cache) := c != nil && (typeof(c) == ptrtag(LRUCache) || typeof(c) == ptrtag(nullCache))
@@ -105,12 +128,15 @@ package updog
 //@   modifies heap list.List.stamp; heap list.List.clock; heap CounterMetric.count
 //@   ensures CacheValid(c)
 //@   ensures found ==> bm != nil
+//@   ensures [C03] hit_is_what_was_stored: found ==> bm == old(cachedBM(c, key))
+//@   ensures [C03] lookups_change_nothing: forall k uint64 :: cachedBM(c, k) == old(cachedBM(c, k))
 
 //@ interface Cache.Put(c, key, bm)
 //@   requires CacheValid(c) && bm != nil
 //@   modifies heap list.List.stamp; heap list.List.clock; heap list.List.members; heap CounterMetric.count; heap LRUCache.curSize
 //@   modifies heap map[uint64]*list.Element; heap dom[uint64]*list.Element; heap lruCacheItem.bm; heap lruCacheItem.size
 //@   ensures CacheValid(c)
+//@   ensures [C03] only_this_key_changes: forall k uint64 :: cachedBM(c, k) == nil || cachedBM(c, k) == ((k == key) ? bm : old(cachedBM(c, k)))
 
 //@ func [C03,C04] (*nullCache).Get(c, key) inherits Cache.Get
 //@   ensures [C03] !result1 && result0 == nil
@@ -140,6 +166,8 @@ package updog
 //@ pred SchemaOK(s *schema) := s != nil && (forall k string :: (k in s.Columns) ==> s.Columns[k] != nil)
 //@ pred IdxInv(idx *Index) := idx != nil && SchemaOK(idx.schema) && idx.metrics != nil && GetterValid(idx.values) && CacheValid(idx.cache)
 //@   && (forall c string, v string :: (c in idx.schema.Columns) && (v in idx.schema.Columns[c].Values) ==> hasCol(idx.values, idx.schema.Columns[c].Values[v]))
+//@   && (forall k uint64 :: subset(gcol(idx.values, k), univ(idx.nextRowID)))
+//@   && CacheSem(idx)
 
 // hasCol: a bitmap for value index k is available from the getter. For the preloaded getter: it is in the map.
 // For the on-demand getter every lookup yields a bitmap or an error, so availability is not needed for safety.
@@ -147,10 +175,24 @@ package updog
 //@ pred GetterValid(g colGetter) := g != nil && (typeof(g) == ptrtag(onDemandColGetter) || typeof(g) == ptrtag(preloadedColGetter))
 //@   && (typeof(g) == ptrtag(onDemandColGetter) ==> iref(g) != nil && DBOpen(g.(*onDemandColGetter).db))
 //@   && (typeof(g) == ptrtag(preloadedColGetter) ==> iref(g) != nil && (forall k uint64 :: (k in g.(*preloadedColGetter).values) ==> g.(*preloadedColGetter).values[k] != nil))
+// gcol: the set of rows stored for value index k, as the getter sees it (empty when nothing usable is stored)
+//@ pure decodeBM(b bytes) iset
+//@ pure validBM(b bytes) bool
+//@ pure kV(k uint64) key
+//@ pure be64byte(v uint64, i int) int
+//@ axiom kV_def: forall k uint64 :: { kV(k) } klen(kV(k)) == 9 && kat(kV(k), 0) == 86 && (forall i int :: 0 <= i && i < 8 ==> kat(kV(k), 1 + i) == be64byte(k, i))
+//@ pure gcol(g colGetter, k uint64) iset reads preloadedColGetter.values, map[uint64]*roaring.Bitmap, dom[uint64]*roaring.Bitmap, roaring.Bitmap.view, onDemandColGetter.db, bbolt.DB.committed
+//@ axiom gcol_preloaded: forall g colGetter, k uint64 :: { gcol(g, k) } typeof(g) == ptrtag(preloadedColGetter) ==>
+//@    gcol(g, k) == ((k in g.(*preloadedColGetter).values) ? g.(*preloadedColGetter).values[k].view : iempty())
+//@ axiom gcol_ondemand: forall g colGetter, k uint64 :: { gcol(g, k) } typeof(g) == ptrtag(onDemandColGetter) ==>
+//@    gcol(g, k) == ((sin(g.(*onDemandColGetter).db.committed, kV(k)) && validBM(sval(g.(*onDemandColGetter).db.committed, kV(k))))
+//@                    ? decodeBM(sval(g.(*onDemandColGetter).db.committed, kV(k))) : iempty())
 //@ interface colGetter.GetCol(g, key) (bm, err)
 //@   requires GetterValid(g)
 //@   ensures err == nil && hasCol(g, key) ==> bm != nil
 //@   ensures err != nil ==> bm == nil
+//@   ensures [C01] content: err == nil && bm != nil ==> bm.view == gcol(g, key)
+//@   ensures [C01] nothing_stored: (err != nil || bm == nil) ==> gcol(g, key) == iempty()
 
 //@ interface Expression.eval(e, idx) (bm, err)
 //@   requires wf(e) && IdxInv(idx)
@@ -159,34 +201,61 @@ package updog
 //@   ensures IdxInv(idx)
 //@   ensures (err == nil) ==> bm != nil
 //@   ensures (err != nil) ==> bm == nil
+//@   ensures [C01,C03] result_is_the_meaning: err == nil ==> bm.view == sem(e, idx) && subset(bm.view, univ(idx.nextRowID))
 
 //@ interface Expression.cacheKey(e) (result)
 //@   requires wf(e)
+//@   ensures [C03] result == keySpec(e)
 
-//@ func [C14,C04,C03] (*ExprEqual).eval(e, idx) inherits Expression.eval
-//@ func [C14,C04,C03] (*ExprNot).eval(e, idx) inherits Expression.eval
-//@ func [C14,C04,C03] (*ExprAnd).eval(e, idx) inherits Expression.eval
+//@ func [C01,C14,C04,C03] (*ExprEqual).eval(e, idx) inherits Expression.eval
+//@ func [C01,C14,C04,C03] (*ExprNot).eval(e, idx) inherits Expression.eval
+//@ func [C01,C14,C04,C03] (*ExprAnd).eval(e, idx) inherits Expression.eval
 //@   loop 1
 //@     invariant IdxInv(idx) && wf(e)
-//@     invariant forall j idx(elems) :: elems[j] != nil
+//@     invariant forall j idx(elems) :: elems[j] != nil && elems[j].view == sem(e.Exprs[j], idx) && subset(elems[j].view, univ(idx.nextRowID))
+//@     invariant forall j idx(e.Exprs) :: j < len(elems) ==> elems[j].view == sem(e.Exprs[j], idx)
 //@     invariant arr(elems) == nil || !(arr(elems) in old($alloc))
-//@     invariant 0 <= $i && $i <= len(e.Exprs)
+//@     invariant 0 <= $i && $i <= len(e.Exprs) && len(elems) == $i
 //@     decreases len(e.Exprs) - $i
-//@ func [C14,C04,C03] (*ExprOr).eval(e, idx) inherits Expression.eval
+//@   assert after FastAnd: first_operand_bounds_the_result: len(elems) >= 1 ==> subset(elems[0].view, univ(idx.nextRowID))
+//@ func [C01,C14,C04,C03] (*ExprOr).eval(e, idx) inherits Expression.eval
 //@   loop 1
 //@     invariant IdxInv(idx) && wf(e)
-//@     invariant forall j idx(elems) :: elems[j] != nil
+//@     invariant forall j idx(elems) :: elems[j] != nil && elems[j].view == sem(e.Exprs[j], idx) && subset(elems[j].view, univ(idx.nextRowID))
+//@     invariant forall j idx(e.Exprs) :: j < len(elems) ==> elems[j].view == sem(e.Exprs[j], idx)
 //@     invariant arr(elems) == nil || !(arr(elems) in old($alloc))
-//@     invariant 0 <= $i && $i <= len(e.Exprs)
+//@     invariant 0 <= $i && $i <= len(e.Exprs) && len(elems) == $i
 //@     decreases len(e.Exprs) - $i
 
 //@ pure idxOf(k string, v string) uint64
 //@ trusted func getValueIndex(k, v) (result)
 //@   ensures result == idxOf(k, v)
 
+// Structural cache keys (C03). ckey(mask, keys) names the hash of the canonical encoding of an operator mask followed
+// by the complete, ordered operand key list: 8 big-endian bytes each. The encoding is injective (fixed width, the
+// length of the buffer gives the operand count), so ckey only identifies two (mask, list) pairs when xxhash collides.
+// ckey_def is the definition of the name, not an assumption about the code: combineCacheKeys has to build exactly
+// this buffer to get its postcondition.
+//@ pure ckey(mask uint64, keys []uint64) uint64 reads []uint64
+//@ axiom ckey_def: forall buf []byte, mask uint64, keys []uint64 :: { sum64(buf), ckey(mask, keys) }
+//@     len(buf) == 8 * (len(keys) + 1)
+//@     && (forall p idx(buf) :: buf[p] == ((p < 8) ? be64byte(mask, p) : be64byte(keys[(p - 8) / 8], (p - 8) % 8)))
+//@     ==> sum64(buf) == ckey(mask, keys)
+// keySpec: the key of an expression is the ckey of its operator and of the keys of its operands, in order.
+//@ axiom keyspec_eq: forall x Expression, ks []uint64 :: { keySpec(x), ckey(maskEqual, ks) } typeof(x) == ptrtag(ExprEqual) && len(ks) == 1
+//@     && ks[0] == idxOf(x.(*ExprEqual).Column, x.(*ExprEqual).Value) ==> keySpec(x) == ckey(maskEqual, ks)
+//@ axiom keyspec_not: forall x Expression, ks []uint64 :: { keySpec(x), ckey(maskNot, ks) } typeof(x) == ptrtag(ExprNot) && len(ks) == 1
+//@     && ks[0] == keySpec(x.(*ExprNot).Expr) ==> keySpec(x) == ckey(maskNot, ks)
+//@ axiom keyspec_and: forall x Expression, ks []uint64 :: { keySpec(x), ckey(maskAnd, ks) } typeof(x) == ptrtag(ExprAnd) && len(ks) == len(x.(*ExprAnd).Exprs)
+//@     && (forall j idx(ks) :: ks[j] == keySpec(x.(*ExprAnd).Exprs[j])) ==> keySpec(x) == ckey(maskAnd, ks)
+//@ axiom keyspec_or: forall x Expression, ks []uint64 :: { keySpec(x), ckey(maskOr, ks) } typeof(x) == ptrtag(ExprOr) && len(ks) == len(x.(*ExprOr).Exprs)
+//@     && (forall j idx(ks) :: ks[j] == keySpec(x.(*ExprOr).Exprs[j])) ==> keySpec(x) == ckey(maskOr, ks)
+
 //@ func [C03,C14] combineCacheKeys(mask, keys) (result)
+//@   ensures [C03] key_is_hash_of_mask_and_all_operands_in_order: result == ckey(mask, keys)
 //@   loop 1
-//@     invariant 0 <= $i && len(buf) == 8 * (len(keys) + 1) && arr(buf) != nil && !(arr(buf) in old($alloc))
+//@     invariant 0 <= $i && $i <= len(keys) && len(buf) == 8 * (len(keys) + 1) && arr(buf) != nil && !(arr(buf) in old($alloc)) && off(buf) == 0
+//@     invariant forall p idx(buf) :: p < 8 * ($i + 1) ==> buf[p] == ((p < 8) ? be64byte(mask, p) : be64byte(keys[(p - 8) / 8], (p - 8) % 8))
 
 //@ func [C03,C14] (*ExprEqual).cacheKey(e) inherits Expression.cacheKey
 //@ func [C03,C14] (*ExprNot).cacheKey(e) inherits Expression.cacheKey
@@ -194,10 +263,12 @@ package updog
 //@   loop 1
 //@     invariant wf(e) && 0 <= $i && $i <= len(e.Exprs) && len(keys) == $i
 //@     invariant arr(keys) != nil && !(arr(keys) in old($alloc))
+//@     invariant forall j idx(keys) :: keys[j] == keySpec(e.Exprs[j])
 //@ func [C03,C14] (*ExprOr).cacheKey(e) inherits Expression.cacheKey
 //@   loop 1
 //@     invariant wf(e) && 0 <= $i && $i <= len(e.Exprs) && len(keys) == $i
 //@     invariant arr(keys) != nil && !(arr(keys) in old($alloc))
+//@     invariant forall j idx(keys) :: keys[j] == keySpec(e.Exprs[j])
 
 // ---- group-by (C02): resolved group-by columns
 //@ pred ValuesOK(vs []groupByValue, col *column) :=
@@ -264,6 +335,9 @@ package updog
 //@   ensures [C14] err != nil ==> result == nil
 //@   ensures [C14] err == nil ==> result != nil
 //@   ensures [C14,C04] IdxInv(idx) && idx.mtx.held == 0
+//@   ensures [C01,C03] count_is_number_of_rows_satisfying_the_expression: err == nil ==> result.Count == card(sem(q.Expr, idx))
+//@   ensures [C03] evaluation_changes_no_meaning: forall x Expression :: sem(x, idx) == old(sem(x, idx))
+//@   ensures [C03] stored_and_preloaded_bitmaps_unchanged: forall k uint64 :: gcol(idx.values, k) == old(gcol(idx.values, k))
 
 // validateExpr: establishes well-formedness (termination of the recursion over finite trees is not proved).
 //@ func [C14,C01] validateExpr(expr) (err)
@@ -279,11 +353,11 @@ package updog
 // ---------------------------------------------------------------------------------------------------------------
 // index.go — opening, column getters (C15, C16, C14)
 
-//@ func [C14,C15,C16,C04] (*onDemandColGetter).GetCol(g, key) (bm, err) inherits colGetter.GetCol
+//@ func [C01,C14,C15,C16,C04] (*onDemandColGetter).GetCol(g, key) (bm, err) inherits colGetter.GetCol
 //@   requires g != nil && DBOpen(g.db)
 //@   ensures [C16] g.db.committed == old(g.db.committed) && g.db.ncommits == old(g.db.ncommits)
 
-//@ func [C14,C15,C16,C04] (*preloadedColGetter).GetCol(cg, key) (bm, err) inherits colGetter.GetCol
+//@ func [C01,C14,C15,C16,C04] (*preloadedColGetter).GetCol(cg, key) (bm, err) inherits colGetter.GetCol
 //@   requires cg != nil
 
 // Options: every IndexOption leaves the database open and untouched and keeps what it does not set.
